@@ -127,6 +127,8 @@ def run(ctx):
     res["disagreements"] += s_dis
     res["evaluations"] += s_n
     res["stats"].update(s_stats)
+    res["rule"] += "; plus every class / function / parameter / attribute / result query of the docstring parser's section extraction on " \
+                   "generated docstrings (three styles), model against implementation"
     res["rule"] += "; plus random query sequences (repeats, implicit constructors, missing members) against the real DocstringParser " \
                    "cache on real griffe trees, compared with the model and with the uncached lookup; a sequence is non-trivial when " \
                    "it repeats a name and contains an __init__ query"
